@@ -27,7 +27,7 @@ def run(module, cfg, workers=8, timeout=900, simulate=None, depth=None, seed=Non
         coverage=False, heap="8g", expect_violation=False, quiet=False, deadlock=False, dfs=False):
     """module: file name in /verif/spec; cfg: file name in /verif/spec/mc."""
     md = tempfile.mkdtemp(prefix="tlcmd_", dir=os.path.join(VERIF, ".cache"))
-    cmd = ["java", "-XX:+UseParallelGC", "-Xmx" + heap]
+    cmd = ["java", "-XX:+UseParallelGC", "-Xmx" + heap, "-Xss128m"]
     if dfs:
         cmd.append("-Dtlc2.tool.queue.IStateQueue=StateDeque")
     cmd += ["-cp", JAR, "tlc2.TLC", "-workers", str(workers), "-metadir", md, "-config", os.path.join(SPEC, "mc", cfg)]
